@@ -275,6 +275,12 @@ def run_obligation(ob, seed=0):
                 < ob.validate_paths and getattr(ob, 'real', None):
             v, inputs = _prove_dyadic(ctx, z3.BoolVal(False))
             if v == 'sat':
+                # prefer a model with varied values (random pins where the
+                # path condition allows) over the solver's all-zero default
+                ctx._base_scopes = ctx.solver.num_scopes()
+                alt = _more_models(ctx, inputs, 1)
+                if alt:
+                    inputs = alt[0]
                 ctx.solver.push()
                 # re-evaluate observations under the same inputs
                 for k, c in ctx.inputs.items():
